@@ -39,7 +39,7 @@ Useful(c) == /\ Outcome(c).res = "ok"
 Near(p) == p \in DOMAIN ref \/ (p # Root /\ Parent(p) \in DOMAIN ref)
 Pick == LET ok   == {c \in Calls : Useful(c) /\ Fits(c) /\ ArchiveOK(c)}
             all  == {c \in Calls : Fits(c) /\ ArchiveOK(c)}
-            near == {c \in all : ~Useful(c) /\ c.op \notin Observers /\ Near(c.p) /\ (c.op = "Rename" => c.q \in DOMAIN ref)}
+            near == {c \in all : ~Useful(c) /\ c.op \notin Observers /\ Near(c.p) /\ (c.op = "Rename" => Near(c.q))}
             k    == RandomElement(1..100)
             hc   == HandleCalls
             hcok == {c \in hc : Outcome(c).res = "ok"}
